@@ -320,6 +320,34 @@ pub fn cases(tier: &str, seed: u64, focus: &str) -> Vec<EncCase> {
         }
     }
 
+    // (3b'') an earlier run whose length bookkeeping matters (long Base256, EDIFACT 4k+3, partial triples), then a
+    // final run of every length and a short tail: the end-of-data rules depend on the exact codeword position
+    if focus != "C10" {
+        let prefixes: Vec<(Class, usize)> = vec![(Class::High, 250), (Class::High, 251), (Class::High, 252), (Class::High, 5),
+            (Class::EdifactPunct, 7), (Class::EdifactPunct, 11), (Class::Upper, 4), (Class::Upper, 7), (Class::Digits, 5), (Class::Lower, 5)];
+        let ends = [Class::EdifactPunct, Class::X12, Class::Upper, Class::Lower];
+        let tails: [&[u8]; 6] = [b"", b"a", b"ab", b"1", b"12", b"a1"];
+        for (pc, pn) in &prefixes {
+            for ec in ends {
+                let step = if thorough || *pn < 200 { 1 } else { 1 };
+                for n in (1..=(if *pn >= 200 { 36 } else { 24 })).step_by(step) {
+                    for (ti, tail) in tails.iter().enumerate() {
+                        if !thorough && (n + ti) % 2 == 1 && *pn < 200 {
+                            continue;
+                        }
+                        let mut s = class_string(&mut rng, *pc, *pn);
+                        if rng.chance(1, 2) {
+                            s.push(*rng.pick(b"a~\x01"));
+                        }
+                        s.extend(class_string(&mut rng, ec, n));
+                        s.extend_from_slice(tail);
+                        push_cfgs(&mut out, &mut rng, &g, "prefixThenEod", &s, 1, focus);
+                    }
+                }
+            }
+        }
+    }
+
     // (3c) exact fits of the largest listed symbol: digits / letters / bytes that fill a size exactly, one less, one more
     if focus != "C10" {
         for (i, s) in g.sizes.clone().iter().enumerate() {
